@@ -189,7 +189,13 @@ def check_property(pid, tier, seed, jobs=None):
                         run.undecided.append(oid)
                 else:
                     f = a["failing"] or {}
-                    rep = replay_mod.replay_counterexample(c, f.get("counterexample"), module=mod) if not f.get("no_model") else {"status": "no-model", "failures": []}
+                    c_rep = c
+                    if r.get("variant") and c.variants:
+                        import copy as _copy
+                        ov = dict(c.variants).get(r["variant"]) or {}
+                        c_rep = _copy.copy(c)
+                        c_rep.params = [(n, ov.get(n, t)) for n, t in c.params]
+                    rep = replay_mod.replay_counterexample(c_rep, f.get("counterexample"), module=mod) if not f.get("no_model") else {"status": "no-model", "failures": []}
                     payload = {"property": pid, "obligation": oid, "function": c.func, "file": c.file, "solver": {k: f.get(k) for k in ("backend", "goal", "path_outcome", "escaping_exception", "violations", "reason")},
                                "inputs": f.get("counterexample"), "native_replay": rep,
                                "how_to_run": f"./check {pid} --replay <this file>"}
